@@ -251,15 +251,21 @@ def check_heap(rep, repo: Repo, pre: str = "") -> None:
                 return ("phi", 0, t[2])
             return None
 
+        from .ir import norm_cond, norm_sels
         out = []
+        R = lambda t: show(rewrite(norm_sels(t), f))
         for e in w.events:
             if e.kind in ("bind",):
                 continue
+            gs = []
+            for g in facts(e.guards):
+                g = norm_cond(norm_sels(g))
+                gs.extend(g[1] if g[0] == "and" else [g])
             out.append((e.kind, e.name if e.kind == "call" else e.aug,
-                        show(rewrite(e.target, f)) if e.target is not None else None,
-                        show(rewrite(e.value, f)) if e.value is not None and e.kind == "store" else None,
-                        tuple(show(rewrite(a, f)) for a in e.args),
-                        tuple(show(rewrite(g, f)) for g in facts(e.guards))))
+                        R(e.target) if e.target is not None else None,
+                        R(e.value) if e.value is not None and e.kind == "store" else None,
+                        tuple(R(a) for a in e.args),
+                        tuple(R(g) for g in gs)))
         for li in w.loops.values():
             if li.cond is not None:
                 out.append(("loop", show(rewrite(li.cond, f))))
